@@ -1,0 +1,30 @@
+//go:build verif
+
+package mpx
+
+import (
+	"sync/atomic"
+
+	"github.com/basecomplextech/baselibrary/bin"
+)
+
+// VerifTracer receives one call per instrumented point (build tag "verif" only).
+// It may block: a blocking tracer doubles as a scheduler gate for the calling goroutine.
+type VerifTracer func(event string, id bin.Bin128, a, b int64)
+
+var verifTracer atomic.Pointer[VerifTracer]
+
+// SetVerifTracer installs (or with nil removes) the tracer.
+func SetVerifTracer(f VerifTracer) {
+	if f == nil {
+		verifTracer.Store(nil)
+		return
+	}
+	verifTracer.Store(&f)
+}
+
+func vtr(event string, id bin.Bin128, a, b int64) {
+	if f := verifTracer.Load(); f != nil {
+		(*f)(event, id, a, b)
+	}
+}
